@@ -50,6 +50,25 @@ func (j *judge) explore(nodes map[string]*node, bp BatchProject, seed, pidx uint
 				add(pl.buildForced(ri, "value-sweep", nil, false, map[string][]WireVal{prm.GoName: {c}}))
 			}
 		}
+		// enum parameters: a value that converts to the underlying type but is NOT one of the declared
+		// constants. C05's statement does not say whether that "converts" (it depends on the experimental
+		// enum flags), so the outcome is not judged - but the five engines must still agree (C12).
+		for _, prm := range rt.M.Params {
+			if prm.Type.Kind != "enum" || prm.Loc == "body" || prm.Loc == "context" {
+				continue
+			}
+			raw := "zz-not-a-member"
+			if prm.Type.Prim != "string" {
+				raw = "97"
+			}
+			canon, ok := convert(prm.Type.Prim, raw)
+			if !ok {
+				continue
+			}
+			p := pl.buildForced(ri, "enum-non-member", nil, false, map[string][]WireVal{prm.GoName: {{Raw: raw, Canon: canon, Class: "enum-non-member", OK: true}}})
+			p.Expect.Outcome, p.Expect.Args, p.Expect.Why = "unjudged", nil, "enum value outside the declared constants"
+			add(p)
+		}
 		// damage sweep: every non-converting value of every non-body parameter once
 		for _, prm := range rt.M.Params {
 			if prm.Loc == "context" || prm.Loc == "body" || prm.Type.Kind == "enum" {
